@@ -242,6 +242,8 @@ class Ctx:
         cc = self.contract.callees.get(tgt)
         if cc is None:
             cc = self.contract.callees.get(fv.qualname)
+        if isinstance(cc, dict):                      # per-instance callee contracts: {instance label: contract}
+            cc = cc.get(self.instance)
         if cc is None or cc == "inline":
             return None
         return _CalleeApply(self, cc, tgt)
@@ -355,7 +357,9 @@ class _CalleeApply:
             ctx.by_contract[self.tgt] = {"assumed": assumed, "note": getattr(cc, "note", "")}
             if interp.explorer.decide(T.Fresh.bool("raises_" + exc)):
                 raise PyRaise(ExcVal(exc, ()))
-        res = res_builder(MkCall(st), raw)
+        mkc = MkCall(st)
+        mkc.ctx, mkc.interp = ctx, interp        # result builders may emit call-site obligations (ctx.oblige)
+        res = res_builder(mkc, raw)
         r = wrap(ctx, interp, st, res)
         for label, fn in enss:
             st.assume(T.to_z3(fn(a, r)))
